@@ -82,7 +82,13 @@ func (e *executor) hmacOp(t []string) (string, bool) {
 	case t[1] == "acquire" && len(t) == 5:
 		i := atoi(t[3])
 		s256 := t[2] == "sha256"
-		key := unhex(t[4])
+		// the caller reuses ONE key buffer for all acquisitions (a library that keeps a reference to it is wrong)
+		k0 := unhex(t[4])
+		if e.keyBuf == nil {
+			e.keyBuf = make([]byte, 0, 1024)
+		}
+		key := e.keyBuf[:len(k0)]
+		copy(key, k0)
 		var h hash.Hash
 		if s256 {
 			h = stun.VerifAcquireSHA256(key)
